@@ -112,11 +112,28 @@ def check(repo: Repo, rep, tier):
     clone_def(repo, rep)
 
 
+def _bare_deepcopy(t):
+    """deepcopy(<param>) that did not go through clone(): the copy is stored before / without the equality self-check"""
+    if isinstance(t, tuple) and t:
+        if t[0] == "clone":
+            return None
+        if (t[0] == "mcall" and t[2] == "deepcopy" and t[3] and t[3][0][0] == "param") or (t[0] == "call" and t[1].endswith("deepcopy") and t[2] and t[2][0][0] == "param"):
+            return (t[3] if t[0] == "mcall" else t[2])[0][1]
+        for x in t:
+            r = _bare_deepcopy(x)
+            if r:
+                return r
+    return None
+
+
 def chk(sink, bad, v, o, clone_sinks, op):
     desc, tag = sink
     al = aliases_param(tag)
+    bd = _bare_deepcopy(tag)
     if al:
         bad.setdefault((desc, al[0]), (v, o))
+    elif bd:
+        bad.setdefault((desc + " (a bare copy.deepcopy stored before the `copy == original` self-check of clone() has passed: when the check then raises UsageError, the unequal copy is already recorded and is written at session end)", bd), (v, o))
     elif has_clone(tag):
         clone_sinks.add(f"{op.label}: {desc}")
 
